@@ -389,6 +389,297 @@ def value_case(env: Env, opname, oa, ob, settings=(True, True), const_path=False
     return out
 
 
+
+# --------------------------------------------------------------------------- expression histories
+# A history = a few Vars + a forest of operator_overloading blocks (successive and nested, each with its
+# own promotion settings) whose bodies apply operators to the SAME Vars and to earlier results, so that
+# the same Var needs different casts at different uses. Hidden state in the dispatcher (a cast memoised
+# per Var, a target type remembered from the previous call, ...) shows up here and nowhere else.
+HIST_DTS = [2, 3, 0, 9, 4, 10, 1, 6]  # int32 int64 int8 float32 uint8 float64 int16 uint32
+H_VALUES = [-7, -3, -2, 2, 3, 5]
+
+
+def hist_steps(block):
+    """Steps of a block forest in execution order, with the settings in force."""
+    out = []
+    for b in block:
+        out.extend((b["st"], s) for s in b["pre"])
+        if b.get("inner"):
+            out.extend(hist_steps([b["inner"]]))
+        out.extend((b["st"], s) for s in b.get("post", []))
+    return out
+
+
+def gen_history(rng, value_oracle):
+    nv = rng.randrange(2, 5)
+    dts = rng.sample(HIST_DTS, nv)
+    n_steps = rng.randrange(2, 6)
+    shape_kind = rng.choice(["single", "successive", "nested"])
+
+    def settings():
+        if value_oracle:
+            return [True, rng.random() < 0.7]
+        return [rng.random() < 0.7, rng.random() < 0.7]
+
+    steps = []
+    produced = 0
+
+    def operand(avoid, cp, divisor=False):
+        for _ in range(20):
+            r = rng.random()
+            if r < 0.45:
+                o = ["v", 0 if rng.random() < 0.6 else rng.randrange(nv)]
+            elif r < 0.7 and produced and not divisor:
+                o = ["r", rng.randrange(produced)]
+            elif r < 0.85 and cp:
+                o = rng.choice([["int", 2], ["int", 3], ["float", 2.5], ["float", 0.5]])
+            else:
+                o = ["v", rng.randrange(nv)]
+            if o != avoid:
+                return o
+        return ["v", (avoid[1] + 1) % nv] if avoid[0] == "v" else ["v", 0]
+
+    def mk_steps(k, st):
+        nonlocal produced
+        out = []
+        for _ in range(k):
+            op = rng.choice(BIN + (["neg"] if not value_oracle else []))
+            if op == "neg":
+                a = operand(None, False)
+                if a[0] not in ("v", "r"):
+                    a = ["v", 0]
+                out.append({"op": op, "a": a, "b": None})
+            else:
+                div = op in ("truediv", "floordiv")
+                a = operand(None, st[1])
+                b = operand(a, st[1], divisor=div and value_oracle)
+                if a[0] in ("int", "float") and b[0] in ("int", "float"):
+                    b = ["v", rng.randrange(nv)]
+                out.append({"op": op, "a": a, "b": b})
+            produced += 1
+        return out
+
+    if shape_kind == "single":
+        blocks = [{"st": settings(), "pre": mk_steps(n_steps, None) if False else None}]
+        st = blocks[0]["st"]
+        blocks[0]["pre"] = mk_steps(n_steps, st)
+    elif shape_kind == "successive":
+        k = rng.randrange(1, n_steps)
+        s1, s2 = settings(), settings()
+        blocks = [{"st": s1, "pre": mk_steps(k, s1)}, {"st": s2, "pre": mk_steps(n_steps - k, s2)}]
+    else:
+        s1, s2 = settings(), settings()
+        k1 = rng.randrange(0, n_steps)
+        k2 = rng.randrange(1, n_steps - k1 + 1) if n_steps - k1 >= 1 else 0
+        pre = mk_steps(k1, s1)
+        inner = {"st": s2, "pre": mk_steps(max(k2, 1), s2)}
+        post = mk_steps(max(n_steps - k1 - max(k2, 1), 0), s1)
+        blocks = [{"st": s1, "pre": pre, "inner": inner, "post": post}]
+    vals = []
+    for d in dts:
+        pool = [v for v in H_VALUES if v > 0] if d in (4, 5, 6, 7) else H_VALUES
+        vals.append([rng.choice(pool) for _ in range(6)])
+    return {"vars": dts, "values": vals, "blocks": blocks}
+
+
+FIXED_HISTORIES = [
+    # the same int32 Var first promoted to int32, then to float64
+    {"vars": [2, 2], "values": [[-7, 7, 5, -3, 2, 3], [2, -2, 3, 5, -7, 2]],
+     "blocks": [{"st": [True, True], "pre": [{"op": "add", "a": ["v", 0], "b": ["v", 1]}, {"op": "truediv", "a": ["v", 0], "b": ["v", 1]}]}]},
+    {"vars": [2], "values": [[-7, 7, 5, -3, 2, 3]],
+     "blocks": [{"st": [True, True], "pre": [{"op": "mul", "a": ["v", 0], "b": ["float", 2.5]}, {"op": "add", "a": ["v", 0], "b": ["int", 1]}]}]},
+    {"vars": [2, 3, 0], "values": [[-7, 7, 5, -3, 2, 3], [2, -2, 3, 5, -7, 2], [3, 3, -2, 2, 5, -7]],
+     "blocks": [{"st": [True, True], "pre": [{"op": "add", "a": ["v", 0], "b": ["v", 1]}, {"op": "add", "a": ["v", 0], "b": ["v", 2]},
+                                             {"op": "floordiv", "a": ["r", 0], "b": ["v", 2]}]}]},
+    # the same Var across successive blocks with different settings, and across a nested block
+    {"vars": [2, 2, 3], "values": [[-7, 7, 5, -3, 2, 3], [2, -2, 3, 5, -7, 2], [3, 3, -2, 2, 5, -7]],
+     "blocks": [{"st": [False, True], "pre": [{"op": "add", "a": ["v", 0], "b": ["v", 1]}]},
+                {"st": [True, True], "pre": [{"op": "add", "a": ["v", 0], "b": ["v", 2]}, {"op": "truediv", "a": ["v", 0], "b": ["v", 1]}]}]},
+    {"vars": [0, 9], "values": [[-7, 7, 5, -3, 2, 3], [2, -2, 3, 5, -7, 2]],
+     "blocks": [{"st": [True, True], "pre": [{"op": "mul", "a": ["v", 0], "b": ["int", 3]}],
+                 "inner": {"st": [True, True], "pre": [{"op": "sub", "a": ["v", 0], "b": ["v", 1]}]},
+                 "post": [{"op": "floordiv", "a": ["v", 0], "b": ["int", 2]}, {"op": "add", "a": ["r", 0], "b": ["r", 1]}]}]},
+]
+
+
+def run_history(env: Env, hist, shape=()):
+    """Execute a history on the real code. -> (per-step outcome dicts, per-step result Vars, base Vars)"""
+    np = env.np
+    with warnings.catch_warnings():
+        warnings.simplefilter("ignore")
+        base = [env.spox.argument(env.spox.Tensor(np.dtype(env.dtypes[d]), shape)) for d in hist["vars"]]
+    results, outcomes = [], []
+
+    def resolve(ref):
+        if ref is None:
+            return None
+        if ref[0] == "v":
+            return base[ref[1]]
+        if ref[0] == "r":
+            return results[ref[1]] if ref[1] < len(results) else None
+        return ref[1]
+
+    def do_steps(steps):
+        for stp in steps:
+            a, b = resolve(stp["a"]), resolve(stp["b"])
+            missing = (stp["a"][0] == "r" and a is None) or (stp["b"] is not None and stp["b"][0] == "r" and b is None)
+            if missing:
+                results.append(None)
+                outcomes.append({"skipped": True})
+                continue
+            try:
+                with warnings.catch_warnings():
+                    warnings.simplefilter("ignore")
+                    r = PYOP[stp["op"]](a) if stp["op"] in UNARY else PYOP[stp["op"]](a, b)
+                if not isinstance(r, env.Var):
+                    raise TypeError(f"returned {type(r).__name__}")
+            except Exception as e:  # noqa: BLE001
+                results.append(None)
+                outcomes.append({"err": env.err_name(e)})
+                continue
+            results.append(r)
+            try:
+                outcomes.append({"tree": env.tree(r, [a, b]), "dtype": env.code(r.type.dtype)})
+            except Exception as e:  # noqa: BLE001
+                outcomes.append({"unobservable": f"{type(e).__name__}: {e}"})
+
+    def do_block(b):
+        with env.fut.operator_overloading(env.op, type_promotion=b["st"][0], constant_promotion=b["st"][1]):
+            do_steps(b["pre"])
+            if b.get("inner"):
+                do_block(b["inner"])
+            do_steps(b.get("post", []))
+
+    for b in hist["blocks"]:
+        do_block(b)
+    return outcomes, results, base
+
+
+def model_history(drv, hist):
+    """The model applied compositionally: each step is dispatched on the element types of its operands."""
+    dts = list(hist["vars"])
+    res_dt, out = [], []
+
+    def enc(ref):
+        if ref is None:
+            return ["other"], True
+        if ref[0] == "v":
+            return ["var", dts[ref[1]]], True
+        if ref[0] == "r":
+            d = res_dt[ref[1]] if ref[1] < len(res_dt) else None
+            return (["var", d], True) if d is not None else (None, False)
+        if ref[0] == "int":
+            return ["int", ref[1]], True
+        return ["float"], True
+
+    for st, stp in hist_steps(hist["blocks"]):
+        a, oka = enc(stp["a"])
+        b, okb = enc(stp["b"])
+        if not (oka and okb):
+            res_dt.append(None)
+            out.append({"skipped": True})
+            continue
+        ans = drv.ask("C17", {"settings": st, "op": stp["op"], "a": a, "b": b})
+        res_dt.append(ans.get("dtype") if "tree" in ans else None)
+        out.append(ans)
+    return out
+
+
+def describe_history(env, hist):
+    def ref(r):
+        if r is None:
+            return ""
+        if r[0] == "v":
+            return f"x{r[1]}"
+        if r[0] == "r":
+            return f"r{r[1]}"
+        return repr(r[1])
+    parts = []
+    k = 0
+    for st, stp in hist_steps(hist["blocks"]):
+        e = f"{SYM[stp['op']]}{ref(stp['a'])}" if stp["op"] in UNARY else f"{ref(stp['a'])} {SYM[stp['op']]} {ref(stp['b'])}"
+        parts.append(f"r{k} = {e} [tp={int(st[0])},cp={int(st[1])}]")
+        k += 1
+    vs = ", ".join(f"x{i}: {env.dtypes[d]}" for i, d in enumerate(hist["vars"]))
+    return f"({vs}) " + "; ".join(parts)
+
+
+def history_value_case(env: Env, hist):
+    """Model-free: every intermediate result of the history, through build + onnxruntime, against numpy
+    evaluating the same expressions on the same operand values. -> [(key, what)]"""
+    np = env.np
+    n = len(hist["values"][0])
+    outcomes, results, base = run_history(env, hist, shape=("N",))
+    arrays = [np.array(v, dtype=env.dtypes[d]) for v, d in zip(hist["values"], hist["vars"])]
+    np_res = []
+    steps = hist_steps(hist["blocks"])
+
+    def nres(ref):
+        if ref is None:
+            return None
+        if ref[0] == "v":
+            return arrays[ref[1]]
+        if ref[0] == "r":
+            return np_res[ref[1]]
+        return ref[1]
+
+    out = []
+    for k, (st, stp) in enumerate(steps):
+        a, b = nres(stp["a"]), nres(stp["b"])
+        if (stp["a"][0] == "r" and a is None) or (stp["b"] is not None and stp["b"][0] == "r" and b is None):
+            np_res.append(None)
+            continue
+        kind, want = numpy_expect(np, stp["op"], a, b)
+        np_res.append(np.asarray(want) if kind == "ok" else None)
+        if kind == "ok" and results[k] is None and "err" in outcomes[k]:
+            key = "neg:unsigned:refused" if (stp["op"] == "neg" and np.asarray(a).dtype.kind == "u") else f"history:{stp['op']}:refused:{outcomes[k]['err']}"
+            out.append((key, f"step r{k} of {describe_history(env, hist)} raises {outcomes[k]['err']}; numpy computes a {np.asarray(want).dtype} result"))
+    live = [k for k in range(len(steps)) if results[k] is not None and np_res[k] is not None]
+    if not live:
+        return out, 0
+    with warnings.catch_warnings():
+        warnings.simplefilter("ignore")
+        model = env.spox.build({f"x{i}": v for i, v in enumerate(base)}, {f"r{k}": results[k] for k in live})
+    sess = env.ort.InferenceSession(model.SerializeToString(), env.so, providers=["CPUExecutionProvider"])
+    names = [o.name for o in sess.get_outputs()]
+    got_all = dict(zip(names, sess.run(None, {f"x{i}": arrays[i] for i in range(len(arrays))})))
+    for k in live:
+        got, want = np.asarray(got_all[f"r{k}"]), np_res[k]
+        op = steps[k][1]["op"]
+        if want.shape == ():
+            want = np.broadcast_to(want, (n,))
+        if got.dtype != want.dtype:
+            out.append((f"history:{op}:result-dtype", f"step r{k} of {describe_history(env, hist)}: spox gives {got.dtype}, numpy {want.dtype}"))
+            break  # later steps inherit the difference
+        ok = agree(np, got, np.broadcast_to(want, got.shape))
+        if not ok.all():
+            i = int(np.argwhere(~ok)[0][0])
+            a, b = nres(steps[k][1]["a"]), nres(steps[k][1]["b"])
+            key = f"history:{op}:wrong-value"
+            if op == "floordiv" and want.dtype.kind == "f":
+                xa, xb = np.broadcast_to(np.asarray(a), got.shape), np.broadcast_to(np.asarray(b), got.shape)
+                if all(classify_floordiv_float(np, xa[j[0]], xb[j[0]], got[j[0]], np.broadcast_to(want, got.shape)[j[0]], want.dtype)
+                       for j in np.argwhere(~ok)):
+                    key = "floordiv:float:rounded-quotient"
+            out.append((key, f"step r{k} of {describe_history(env, hist)} at element {i} (values {[v[i] for v in hist['values']]}): "
+                             f"spox {got[i]!r}, numpy {np.broadcast_to(want, got.shape)[i]!r}"))
+            break
+    return out, len(live)
+
+
+def history_corr_case(env: Env, drv, hist):
+    """-> list of mismatch descriptions between the real outcomes and the model's, step by step."""
+    real, _, _ = run_history(env, hist)
+    model = model_history(drv, hist)
+    bad = []
+    for k, (r, m_) in enumerate(zip(real, model)):
+        if "unobservable" in r:
+            bad.append(f"r{k} not observable: {r['unobservable']}")
+        elif r != m_:
+            bad.append(f"step r{k} of {describe_history(env, hist)}: model {m_} real {r}")
+    return bad
+
+
 def describe(env, opname, oa, ob):
     def d(o):
         if o is None:
@@ -456,6 +747,7 @@ CHECKS = {
     "float_probe": lambda env, c: [x for x in [float_probe(env, c["dtype"], c["x"], c["y"])] if x],
     "strict": lambda env, c: strictness_case(env, c["op"], c["a"], c["b"]),
     "outside": lambda env, c: outside_case(env, c["op"], c["a"], c.get("b")),
+    "history": lambda env, c: history_value_case(env, c["hist"])[0],
 }
 
 
@@ -655,6 +947,55 @@ def run(ck: core.Check):
     ck.cov["eval_points_vs_onnxruntime"] = n_eval
     ck.cov["eval_mismatches"] = eval_mism
 
+
+    # ------------------------------------------------------------------ expression histories (hidden state)
+    n_hist_v, n_hist_c = ck.pick(150, 1500), ck.pick(250, 2500)
+    hists_v = list(FIXED_HISTORIES) + [gen_history(rng, True) for _ in range(n_hist_v)]
+    hists_c = list(FIXED_HISTORIES) + [gen_history(rng, False) for _ in range(n_hist_c)]
+    hist_mism = 0
+    hstats = {"steps": 0, "reused_var_uses": 0, "nested": 0, "successive": 0}
+    for h in hists_c + hists_v:
+        sts = hist_steps(h["blocks"])
+        hstats["steps"] += len(sts)
+        uses = [tuple(r) for _, s_ in sts for r in (s_["a"], s_["b"]) if r is not None and r[0] in ("v", "r")]
+        hstats["reused_var_uses"] += len(uses) - len(set(uses))
+        hstats["nested"] += int(any(b.get("inner") for b in h["blocks"]))
+        hstats["successive"] += int(len(h["blocks"]) > 1)
+    if model is not None:
+        try:
+            drv = ck.driver()
+            for h in hists_c + hists_v:
+                try:
+                    bad = history_corr_case(env, drv, h)
+                except Exception as e:  # noqa: BLE001
+                    bad = [f"history not observable: {type(e).__name__}: {e}"]
+                ck.count(("history-corr", repr(h["vars"]), repr(h["blocks"])))
+                if bad:
+                    hist_mism += 1
+                    if hist_mism <= 3:
+                        ck.broken("correspondence", "C17 expression history model-vs-implementation", bad[0])
+        except Exception as e:  # noqa: BLE001
+            ck.broken("correspondence", "C17 history driver", str(e))
+    env.restore_dispatcher(saved)
+    results = forked_batch(lambda h: history_value_case(env, h), hists_v, size=32)
+    for h, res in zip(hists_v, results):
+        ck.count(("history-value", repr(h["vars"]), repr(h["blocks"])))
+        if res[0] != "ok":
+            if res[0] == "exc" and res[1].split(":")[0] in ("AttributeError", "ImportError", "ModuleNotFoundError", "NameError"):
+                ck.broken("correspondence", "C17 history oracle could not observe spox", f"{describe_history(env, h)}: {res[1]}")
+            else:
+                ck.failure("history:runtime-crash" if res[0] == "crash" else "history:oracle-exception",
+                           f"{describe_history(env, h)}: {res[1]}", {"check": "history", "hist": h})
+            continue
+        for key, what in res[1][0]:
+            ck.failure(key, what, {"check": "history", "hist": h})
+        hstats["intermediates_compared_with_numpy"] = hstats.get("intermediates_compared_with_numpy", 0) + res[1][1]
+    ck.count(None, hstats.get("intermediates_compared_with_numpy", 0))
+    if hstats.get("intermediates_compared_with_numpy", 0) < len(hists_v):
+        ck.broken("generator", "C17 history oracle starved", f"only {hstats.get('intermediates_compared_with_numpy', 0)} intermediates compared")
+    ck.cov["history_cases"] = {"correspondence": len(hists_c) + len(hists_v), "value_oracle": len(hists_v), **hstats}
+    ck.cov["history_mismatches"] = hist_mism
+
     # float floor division: the family of the listed finding (quotients that round up to an integer)
     probes = [(1.0, 0.1), (6.0, 0.2), (0.3, 0.1), (7.0, 0.7), (2.0, 0.4), (-1.0, 0.1), (1.0, -0.1), (9.0, 0.3), (4.5, 1.5), (-7.0, 2.0)]
     pjobs = [(dtn, x, y) for dtn in ["float32", "float64"] for x, y in probes]
@@ -696,6 +1037,9 @@ def run(ck: core.Check):
         "for the logical operators in quick); 5 arithmetic operators x (11 x 11 numeric dtype pairs + 11 dtypes x 6 Python "
         "scalars x 2 sides) + neg + logical on the full value grids {-7,-2,-1,0,1,2,7,min,max(,0.5,-2.5)} with broadcasting "
         "shapes (N,1) x (M,) through onnxruntime; a seeded sample of them through value propagation; "
+        "5 fixed + seeded-random expression histories (2-5 applications re-using the same Vars and earlier results, needing "
+        "different casts per use, inside single / successive / nested blocks with different settings): per-step tree vs the "
+        "model applied compositionally, and every intermediate through onnxruntime vs numpy; "
         "non-trivial = one (settings, operator, operand kinds) combination"
     )
     ck.assumptions += [
